@@ -504,6 +504,7 @@ struct ShuffleTables {
     steps: u64,
     mixed_steps: u64,
     multi_asset_steps: u64,
+    trading_off_steps: u64,
     distinct: Vec<u64>,
     content_checks: u64,
     replay_checks: u64,
@@ -524,6 +525,7 @@ impl ShuffleTables {
             steps: 0,
             mixed_steps: 0,
             multi_asset_steps: 0,
+            trading_off_steps: 0,
             distinct: Vec::new(),
             content_checks: 0,
             replay_checks: 0,
@@ -590,6 +592,7 @@ impl ShuffleTables {
         self.steps += o.steps;
         self.mixed_steps += o.mixed_steps;
         self.multi_asset_steps += o.multi_asset_steps;
+        self.trading_off_steps += o.trading_off_steps;
         self.distinct.extend(o.distinct);
         self.content_checks += o.content_checks;
         self.replay_checks += o.replay_checks;
@@ -723,12 +726,27 @@ fn shuffle_worker<E: SimEnv>(seed: u64, work: &[(usize, u64)], t: &mut ShuffleTa
         while done < *steps {
             let ticks: Vec<u32> = (0..assets).map(|_| rng.range(1, 10) as u32).collect();
             let step_size = (*n as u64).max(1) + rng.range(0, 50);
-            let mut env = E::create(rng.below(1000), &ticks, step_size, true);
+            // a third of the environments run (part of) their steps with trading disabled: the schedule must not
+            // depend on the trading flag either (the quotes used here never cross, so positions stay observable)
+            let tmode = rng.below(6);
+            let mut trading = tmode != 0;
+            let mut env = E::create(rng.below(1000), &ticks, step_size, trading);
+            if tmode == 1 {
+                env.set_trading(false);
+                trading = false;
+            }
             let xseed = rng.next();
             let mut xr = Xoroshiro128StarStar::seed_from_u64(xseed);
             let per_env = 12.min(*steps - done);
             for s in 0..per_env {
                 let mixed = s > 0 && s % 3 == 2;
+                if tmode <= 2 && s > 0 && rng.chance(0.15) {
+                    trading = !trading;
+                    env.set_trading(trading);
+                }
+                if !trading {
+                    t.trading_off_steps += 1;
+                }
                 let xr_before = xr.clone();
                 let content = rng.next();
                 match shuffle_step(&mut env, &mut xr, &mut rng, *n, mixed, content, &ticks) {
@@ -969,6 +987,7 @@ pub fn c15(ctx: &Ctx) -> i32 {
         ("steps", steps, 1_000_000),
         ("mixed_steps", mixed_steps, 10_000),
         ("multi_asset_steps", ts[1].steps, 100_000),
+        ("trading_off_steps", ts[0].trading_off_steps + ts[1].trading_off_steps, 100_000),
         ("content_independence_checks", content_checks, 1000),
         ("replay_checks", replay_checks, 1000),
     ]));
@@ -976,7 +995,7 @@ pub fn c15(ctx: &Ctx) -> i32 {
     let cov = json!({
         "evaluations": steps,
         "distinct_nontrivial": d.len(),
-        "rule": "cases = seeded simulation steps (fresh Xoroshiro128** seed per 12 steps) whose n queued instructions all have a visible processed position (rank of the time-stamp within the batch: arrival time of new orders, end time of cancellations of active orders; contents vary independently of the shuffle generator); batch sizes 2..24, 32, 48, 64; separate tables for the single- and the multi-asset environment; distinct = distinct position maps (item -> processed position) observed; non-trivial = every recorded step (n >= 2)",
+        "rule": "cases = seeded simulation steps (fresh Xoroshiro128** seed per 12 steps) whose n queued instructions all have a visible processed position (rank of the time-stamp within the batch: arrival time of new orders, end time of cancellations of active orders; contents vary independently of the shuffle generator; about a third of the steps run with trading disabled, the exact twin checks always compare with a trading-enabled twin); batch sizes 2..24, 32, 48, 64; separate tables for the single- and the multi-asset environment; distinct = distinct position maps (item -> processed position) observed; non-trivial = every recorded step (n >= 2)",
         "samples": sample_perm,
         "tables": worst,
         "cells_tested": cells,
@@ -984,6 +1003,7 @@ pub fn c15(ctx: &Ctx) -> i32 {
         "false_alarm_bound_per_run": 1e-9,
         "mixed_kind_steps": mixed_steps,
         "multi_asset_steps": ts[1].steps,
+        "trading_disabled_steps": ts[0].trading_off_steps + ts[1].trading_off_steps,
         "content_independence_checks": content_checks,
         "replay_determinism_checks": replay_checks,
     });
